@@ -145,7 +145,11 @@ func (clnt *Clnt) recv() {
 
 		n, oerr := clnt.conn.Read(buf[pos:])
 		if oerr != nil || n == 0 {
-			err = &Error{oerr.Error(), EIO}
+			msg := "connection closed"
+			if oerr != nil {
+				msg = oerr.Error()
+			}
+			err = &Error{msg, EIO}
 			clnt.Lock()
 			clnt.err = err
 			clnt.Unlock()
